@@ -201,7 +201,7 @@ pub fn record(c: &CrashCase) -> Result<(Vec<IoEvent>, Vec<Mark>, Vec<String>, Ve
         if matches!(st, Step::Reopen(_)) {
             continue; // crash histories never close cleanly
         }
-        let writers_before: Vec<u8> = it.txns.iter().filter(|(_, t)| t.wrote).map(|(s, _)| *s).collect();
+        let writers_before: Vec<u8> = it.txns.iter().filter(|(s, t)| t.wrote || it.doomed.contains(*s)).map(|(s, _)| *s).collect();
         let flushes_before = it.transcript.iter().filter(|l| l.ends_with("flush")).count();
         if let Some(f) = it.step(i, st) {
             live_fail = Some(f);
@@ -226,7 +226,7 @@ pub fn record(c: &CrashCase) -> Result<(Vec<IoEvent>, Vec<Mark>, Vec<String>, Ve
             committed: it.model.committed.clone(),
             desc,
             tags: it.tags.iter().cloned().collect(),
-            open_writers: it.txns.values().any(|t| t.wrote),
+            open_writers: it.txns.iter().any(|(s, t)| t.wrote || it.doomed.contains(s)),
             had_noncommit: it.pending_noncommit_write,
         });
     }
